@@ -34,6 +34,12 @@ class FragSock:
         self.recv_log.append((n, flags, len(chunk)))
         return chunk
 
+    def recv_into(self, buffer, nbytes=0, flags=0):
+        mv = memoryview(buffer)
+        chunk = self.recv(nbytes or len(mv), flags)
+        mv[:len(chunk)] = chunk
+        return len(chunk)
+
     def send(self, data):
         self.sent += data
         return len(data)
@@ -106,6 +112,12 @@ class ScriptedReadSock:
         chunk = self.stream[self.pos:self.pos + k]
         self.pos += k
         return chunk
+
+    def recv_into(self, buffer, nbytes=0, flags=0):
+        mv = memoryview(buffer)
+        chunk = self.recv(nbytes or len(mv), flags)
+        mv[:len(chunk)] = chunk
+        return len(chunk)
 
     def gettimeout(self):
         return self._timeout
